@@ -520,3 +520,87 @@ pub fn cmd_rollback(args: &[String]) -> i32 {
     );
     if io_failed || bad > 0 || harness_errors > 0 { 1 } else { 0 }
 }
+
+// ===========================================================================
+// c17-whole: whole-row binds at the value-count limit, vectors with a wrong number of elements, row tuples whose
+// arity differs from the number of columns. `vh-cql c17-whole <ignored-in> <out.ndjson>`: a fixed case list.
+// ===========================================================================
+
+pub fn cmd_whole(args: &[String]) -> i32 {
+    use scylla_cql_core::deserialize::row::DeserializeRow;
+    use scylla_cql_core::frame::response::result::{ColumnSpec, TableSpec};
+    use scylla_cql_core::serialize::row::RowSerializationContext;
+    let Some(outp) = args.get(1) else {
+        eprintln!("usage: vh-cql c17-whole <in (unused)> <out.ndjson>");
+        return 2;
+    };
+    let mut out = match std::fs::File::create(outp) {
+        Ok(f) => std::io::BufWriter::new(f),
+        Err(e) => {
+            eprintln!("create {outp}: {e}");
+            return 2;
+        }
+    };
+    let int = ColumnType::Native(NativeType::Int);
+    let specs_of = |n: usize, ct: &ColumnType<'static>| -> Vec<ColumnSpec<'static>> {
+        (0..n).map(|_| ColumnSpec::borrowed("c", ct.clone(), TableSpec::borrowed("ks", "t"))).collect()
+    };
+    let mut recs: Vec<Value> = Vec::new();
+    // (a) a whole row bound at once (what sessions do with the caller's values)
+    for n in [0usize, 1, 2, 65534, 65535, 65536, 65537, 70000, 131072] {
+        let specs = specs_of(n, &int);
+        let row: Vec<i32> = vec![7; n];
+        let r = catch_unwind(AssertUnwindSafe(|| SerializedValues::from_serializable(&RowSerializationContext::from_specs(&specs), &row)));
+        recs.push(match r {
+            Ok(Ok(sv)) => json!({"kind":"row","n":n,"ok":1,"count":sv.element_count(),"cells":sv.iter().count(),"panic":0}),
+            Ok(Err(_)) => json!({"kind":"row","n":n,"ok":0,"count":0,"cells":0,"panic":0}),
+            Err(_) => json!({"kind":"row","n":n,"ok":0,"count":0,"cells":0,"panic":1}),
+        });
+    }
+    // (b) a sequence bound to a vector column: only the declared number of elements fits
+    for (elem, ect) in [("float", ColumnType::Native(NativeType::Float)), ("text", ColumnType::Native(NativeType::Text))] {
+        for d in [1u16, 2, 3] {
+            for len in [0usize, d as usize - 1, d as usize, d as usize + 1, d as usize + 65536, d as usize + 131072, 65536] {
+                let ct = ColumnType::Vector { typ: Box::new(ect.clone()), dimensions: d };
+                let mut sv = SerializedValues::new();
+                let _ = sv.add_value(&1i32, &int);
+                let before = (sv.element_count(), raw_buffer(&sv).len());
+                let r = catch_unwind(AssertUnwindSafe(|| {
+                    if elem == "float" {
+                        sv.add_value(&vec![1.5f32; len], &ct).is_ok()
+                    } else {
+                        sv.add_value(&vec!["ab".to_string(); len], &ct).is_ok()
+                    }
+                }));
+                let after = (sv.element_count(), raw_buffer(&sv).len());
+                recs.push(json!({"kind":"vec","elem":elem,"d":d,"len":len,"ok":matches!(r, Ok(true)) as u8,"panic":r.is_err() as u8,
+                                 "count_before":before.0,"buf_before":before.1,"count_after":after.0,"buf_after":after.1}));
+            }
+        }
+    }
+    // (c) a row read into a tuple: the arity must be the number of columns
+    macro_rules! arity {
+        ($a:expr, $t:ty) => {
+            for k in 0usize..=5 {
+                let specs = specs_of(k, &int);
+                let r = catch_unwind(AssertUnwindSafe(|| <$t as DeserializeRow>::type_check(&specs).is_ok()));
+                recs.push(json!({"kind":"rowtc","arity":$a,"cols":k,"ok":matches!(r, Ok(true)) as u8,"panic":r.is_err() as u8}));
+            }
+        };
+    }
+    arity!(0, ());
+    arity!(1, (i32,));
+    arity!(2, (i32, i32));
+    arity!(3, (i32, i32, i32));
+    arity!(4, (i32, i32, i32, i32));
+    for r in &recs {
+        if writeln!(out, "{r}").is_err() {
+            return 2;
+        }
+    }
+    if out.flush().is_err() {
+        return 2;
+    }
+    println!("{}", json!({"cmd":"c17-whole","records":recs.len()}));
+    0
+}
